@@ -11,7 +11,8 @@ RULE = ("cases are (layout of uniform depth, reducer in the 10 reducers, axis po
         "keepdims) with bool / all integer widths / float32/64 / complex / datetime leaves, options at any level, "
         "empty lists, all-missing groups, unequal list lengths under a non-innermost axis, length-0 arrays; expected "
         "value = reducer applied to each group of leaves agreeing on all coordinates but the reduced one; non-trivial "
-        "= at least one group with >= 1 element; distinct = SHA-1 of the case descriptor")
+        "= at least one group with >= 1 element; one case in eight uses a branching type (records at any level whose "
+        "fields have equal depth) under the law reduce(x)[f] == reduce(x[f]) at the innermost axis; distinct = SHA-1 of the case descriptor")
 VARIANTS = {"quick": ["asan"], "thorough": ["asan"]}
 BUDGET = {"quick": dict(cases=150000, seconds=55), "thorough": dict(cases=2000000, seconds=1200)}
 MIN_NONTRIVIAL = {"quick": 2000, "thorough": 30000}
@@ -24,7 +25,85 @@ ASSUMPTIONS = ["integer sum/prod wrap at 64 bits; float sums are accumulated lef
 DT = {"plain": ["bool"] + gen.INT_DTYPES + gen.FLOAT_DTYPES}
 
 
+def _gen_records(rng, tier, name):
+    """branching types: records (at any level) whose fields all have the same depth; innermost axis"""
+    cfg = gen.Cfg(tier, unions=False, strings=False, categorical=False)
+    cfg.nan = False
+    cfg.unknown = False
+    cfg.inf = False
+    cfg.dtypes = DT["plain"]
+    for _ in range(30):
+        T, vals, d = gen.layout(rng, cfg, min_depth=2 if rng.random() < 0.7 else None)
+        lo, hi = gen.depth_of(T)
+        if lo == hi and _has_record(T) and not _has_empty_record(T):
+            op = {"op": "reduce", "name": name, "axis": -1, "mask": rng.random() < 0.5, "keepdims": rng.random() < 0.3}
+            return {"T": T, "layout": d, "op": op, "mode": "records"}
+    return None
+
+
+def _has_record(T):
+    t = T["t"]
+    if t == "record":
+        return True
+    if t in ("list", "regular", "option"):
+        return _has_record(T["e"])
+    return False
+
+
+def _has_empty_record(T):
+    t = T["t"]
+    if t == "record":
+        return not T["fields"] or any(_has_empty_record(f) for f in T["fields"])
+    if t in ("list", "regular", "option"):
+        return _has_empty_record(T["e"])
+    return False
+
+
+def _first_record(T, path=()):
+    """-> keys of the outermost record type"""
+    t = T["t"]
+    if t == "record":
+        return T["keys"] if T["keys"] is not None else [str(i) for i in range(len(T["fields"]))]
+    return _first_record(T["e"])
+
+
+def run_records(ctx, case):
+    """reducers see through records: reduce(x)[f] must equal reduce(x[f]) for every field f of the outermost record"""
+    b = ctx.lib
+    d, op = case["layout"], case["op"]
+    h = b.build(d)
+    v = model.value(d)
+    ctx.cover("mode", "records")
+    ctx.cover("reducer", op["name"])
+    for c in model.classes(d):
+        ctx.cover("input_classes", c)
+    ctx.nontrivial(len(v) > 0)
+    whole = ops.run_op(b, h, op)
+    for key in _first_record(case["T"]):
+        fh = ops.run_op(b, h, {"op": "getitem_field", "key": key})
+        if fh.kind != "value":
+            raise RuntimeError("field projection of the input failed: %r" % (fh.brief(),))
+        part = ops.run_op(b, fh.handle, op)
+        ctx.count("fields_compared")
+        ctx.cover("records_outcome", "%s/%s" % (whole.kind, part.kind))
+        if whole.kind != "value":
+            if part.kind == "value":
+                ctx.violation("records-reduce-differs", {"op": op, "key": key, "whole": whole.brief(), "field": part.brief(),
+                                                         "type": gen.typestr(case["T"])})
+                return
+            continue
+        got = ops.run_op(b, whole.handle, {"op": "getitem_field", "key": key})
+        if got.kind != part.kind or (got.kind == "value" and not model.same(got.value, part.value, rel=1e-5)):
+            ctx.violation("records-reduce-differs", {"op": op, "key": key, "whole_field": got.brief(), "field": part.brief(),
+                                                     "type": gen.typestr(case["T"])})
+            return
+
+
 def gen_case(rng, tier, index):
+    if index % 8 == 5:
+        case = _gen_records(rng, tier, rng.choice(ops.REDUCERS))
+        if case:
+            return case
     cfg = cc.uniform_cfg(tier)
     cfg.nan = False
     cfg.unknown = False
@@ -67,6 +146,8 @@ def _leaf(T):
 
 
 def run_case(ctx, case):
+    if case.get("mode") == "records":
+        return run_records(ctx, case)
     b = ctx.lib
     d = case["layout"]
     v = model.value(d)
@@ -118,7 +199,7 @@ def classify(vio):
 def signature(vio):
     det = vio.get("detail") or {}
     op = det.get("op") or {}
-    if vio["kind"] in ("wrong-value", "unexpected-error", "missing-error"):
+    if vio["kind"] in ("wrong-value", "unexpected-error", "missing-error", "records-reduce-differs"):
         return "%s:%s" % (vio["kind"], op.get("name"))
     return None
 
